@@ -115,6 +115,14 @@ func (s *ModelServer) ListModes(_ context.Context, request *traits.ListModesRequ
 		nextIndex = sort.Search(len(sortedModes), func(i int) bool {
 			return sortedModes[i].Id > lastKey
 		})
+		// the listing is in the collection's order, which an id interceptor can make differ from the order of the
+		// ids themselves: carry on right after the item the last page ended with whenever it is still there
+		for i, item := range sortedModes {
+			if item.Id == lastKey {
+				nextIndex = i + 1
+				break
+			}
+		}
 	}
 
 	result := &traits.ListModesResponse{
